@@ -197,6 +197,29 @@ pub struct RestoreOutcome {
     pub tree: Tree,
     pub describe: String,
     pub errors: Vec<String>,
+    /// Where it was restored to (error messages may name a file by its destination path).
+    pub dest: String,
+}
+
+/// Does this message name the archive path (as a whole path, not as part of a longer one), either
+/// as such or as the path it is restored to? Wording and error types are the tool's business.
+pub fn mentions_path(msg: &str, apath: &str, dest: &str) -> bool {
+    let name_char = |c: char| c.is_alphanumeric() || "._-~".contains(c) || !c.is_ascii();
+    let found = |needle: &str, check_before: bool| -> bool {
+        let mut start = 0;
+        while let Some(pos) = msg[start..].find(needle) {
+            let i = start + pos;
+            let j = i + needle.len();
+            let before_ok = !check_before || msg[..i].chars().next_back().is_none_or(|c| !name_char(c) && c != '/');
+            let after_ok = msg[j..].chars().next().is_none_or(|c| !name_char(c) && c != '/');
+            if before_ok && after_ok {
+                return true;
+            }
+            start = i + needle.chars().next().map(|c| c.len_utf8()).unwrap_or(1);
+        }
+        false
+    };
+    found(apath, true) || (!dest.is_empty() && found(&format!("{dest}{apath}"), false))
 }
 
 pub fn restore_outcome(dir: &Path, band: u32, scratch: &Scratch) -> RestoreOutcome {
@@ -211,6 +234,7 @@ pub fn restore_outcome(dir: &Path, band: u32, scratch: &Scratch) -> RestoreOutco
         tree,
         describe: o.describe(),
         errors: o.monitor_errors.clone(),
+        dest: dest.to_string_lossy().into_owned(),
     }
 }
 
@@ -502,7 +526,7 @@ pub fn c10_case(a: &DamageArchive, base: &Baseline, file: &str, dmg: &Damage, sr
                 // or altered must be reported itself (one report for another file of the same
                 // block does not cover it).
                 if block_bad && got != Some(want) && e.kind == "File" {
-                    let named = ro.errors.iter().any(|m| m.contains(&format!(" for {}:", e.apath)) || m.contains(&format!("{:?}", e.apath)));
+                    let named = ro.errors.iter().any(|m| mentions_path(m, &e.apath, &ro.dest));
                     if !named {
                         v.push(Violation::new(
                             format!("C10:altered-file-not-reported:{site}"),
